@@ -394,8 +394,9 @@ pub struct FnDesc {
     pub args: &'static [Ty],
     /// number of gates the (async) body awaits
     pub gates: u8,
-    /// body pads its value to a length derived from the arguments (memory rows)
-    pub mem_pad: bool,
+    /// 0: no padding; 1: the body pads its value to a length derived from the arguments
+    /// (24..178, memory rows); n > 1: pads to exactly n bytes
+    pub pad: u32,
     /// the attribute text as written (for reports)
     pub attr_text: &'static str,
 }
@@ -474,7 +475,7 @@ pub fn pad_len(enc: &[u8]) -> usize {
 }
 
 /// The pure twin value: encodes function id, version stamp and arguments injectively.
-pub fn twin_value_enc(fn_id: u32, version: u32, enc: &[u8], mem_pad: bool) -> String {
+pub fn twin_value_enc(fn_id: u32, version: u32, enc: &[u8], pad: u32) -> String {
     let mut s = String::with_capacity(16 + enc.len() * 2);
     s.push('F');
     s.push_str(&fn_id.to_string());
@@ -483,10 +484,13 @@ pub fn twin_value_enc(fn_id: u32, version: u32, enc: &[u8], mem_pad: bool) -> St
     s.push(':');
     hex(enc, &mut s);
     s.push(';');
-    if mem_pad {
-        let target = pad_len(enc);
-        while s.len() < target {
-            s.push('.');
+    if pad > 0 {
+        let target = if pad == 1 { pad_len(enc) } else { pad as usize };
+        if s.len() < target {
+            s.reserve(target - s.len());
+            while s.len() < target {
+                s.push('.');
+            }
         }
     }
     s
@@ -517,17 +521,17 @@ pub fn enc_argvals(recv: Option<&ArgVal>, args: &[ArgVal], tys: &[Ty]) -> Vec<u8
 }
 
 /// Body of a plain-return decorated function: counts the execution and returns the twin value.
-pub fn body_plain(fn_id: u32, mem_pad: bool, parts: &[&dyn Enc]) -> String {
+pub fn body_plain(fn_id: u32, pad: u32, parts: &[&dyn Enc]) -> String {
     note_exec(fn_id);
     let enc = enc_args(parts);
-    twin_value_enc(fn_id, NEXT_VER.with(|v| v.get()), &enc, mem_pad)
+    twin_value_enc(fn_id, NEXT_VER.with(|v| v.get()), &enc, pad)
 }
 
 /// Body of a Result-returning decorated function: outcome chosen by the harness.
-pub fn body_result(fn_id: u32, mem_pad: bool, parts: &[&dyn Enc]) -> Result<String, String> {
+pub fn body_result(fn_id: u32, pad: u32, parts: &[&dyn Enc]) -> Result<String, String> {
     note_exec(fn_id);
     let enc = enc_args(parts);
-    let v = twin_value_enc(fn_id, NEXT_VER.with(|v| v.get()), &enc, mem_pad);
+    let v = twin_value_enc(fn_id, NEXT_VER.with(|v| v.get()), &enc, pad);
     if NEXT_OK.with(|o| o.get()) {
         Ok(v)
     } else {
